@@ -47,6 +47,14 @@ func checkC08(c *Ctx) {
 		o.Gen.MaxTx = 8
 		o.Gen.InvalidPct = 15
 		o.Gen.W["proposal"], o.Gen.W["vote"], o.Gen.W["stake"], o.Gen.W["unstake"] = 10, 15, 20, 12
+		if i%3 == 1 {
+			// more candidates than validator slots: what is recorded about "the validators" is not simply "all delegatees"
+			o.Params.MaxValidatorCnt = int64(1 + rng.Intn(2))
+			o.Gen.NVal = int(o.Params.MaxValidatorCnt)
+			o.Params.MinValidatorStake = e18(2).String()
+			o.Gen.W["stake"], o.Gen.W["delegate"] = 45, 10
+			o.Params.MaxIndividualStakeRatio, o.Params.MaxUpdatableStakeRatio = 100000, 100
+		}
 		hr := runHistory(c, i, c.Rng("hist-C08", i), o)
 		hr.Report("C08")
 		nb := len(hr.Results)
